@@ -2,6 +2,7 @@ package main
 
 import (
 	"bytes"
+	"context"
 	"encoding/json"
 	"fmt"
 
@@ -361,6 +362,70 @@ func runPES(line []byte, rec *recorder) {
 				pvec("random", h, exactPlen(h, 0, av), r.intn(4), av)
 			} else {
 				wvec("random", h, r.intn(400))
+			}
+		}
+	case "stream":
+		// the headers where a stream carries them: several units per PID through one Muxer (stream id given or left to the muxer, a fresh
+		// optional header per unit) and back through one Demuxer; payload sizes on both sides of the 1 KB / 2 KB / 64 KB marks, unbounded
+		// (video) and bounded units in no particular order - every unit comes back with its own header and exactly its own bytes
+		for rep := 0; rep < sc.N; rep++ {
+			w := &recWriter{}
+			m := astits.NewMuxer(context.Background(), w, astits.MuxerOptTablesRetransmitPeriod(r.pick(1, 5, 40)))
+			types := map[int]astits.StreamType{0x100: astits.StreamTypeH264Video, 0x101: astits.StreamTypeAACAudio, 0x102: astits.StreamTypePrivateData}
+			for _, pid := range []int{0x100, 0x101, 0x102} {
+				m.AddElementaryStream(astits.PMTElementaryStream{ElementaryPID: uint16(pid), StreamType: types[pid]})
+			}
+			m.SetPCRPID(0x100)
+			sent := map[int][]M{}
+			okAll := true
+			for i, n := 0, r.rangeInt(6, 14); i < n; i++ {
+				pid := 0x100 + r.intn(3)
+				sid := r.pick(0, 0, 0xe0, 0xc0, 0xbd)
+				h := buildPESHeader(muxHdrClasses[r.intn(len(muxHdrClasses))], sid, r)
+				if h.OptionalHeader == nil {
+					continue
+				}
+				data := r.bytes(r.pick(1, 100, 1000, 1030, 1500, 2049, 3000, 5000, 12000, 48000, 1+r.intn(4000)))
+				want := *h
+				if sid == 0 {
+					want.StreamID = types[pid].ToPESStreamID()
+				}
+				var err error
+				if pn := safeCall(func() { _, err = m.WriteData(&astits.MuxerData{PID: uint16(pid), PES: &astits.PESData{Header: h, Data: data}}) }); pn != nil || err != nil {
+					okAll = false
+					break
+				}
+				sent[pid] = append(sent[pid], M{"hdr": projPESHeader(&want), "len": len(data), "dg": digest(data)})
+			}
+			if !okAll {
+				continue
+			}
+			got := map[int][]M{}
+			dmx := astits.NewDemuxer(context.Background(), bytes.NewReader(w.buf.Bytes()), astits.DemuxerOptPacketSize(188))
+			for k := 0; k < w.buf.Len()/188+20; k++ {
+				var d *astits.DemuxerData
+				var err error
+				if pn := safeCall(func() { d, err = dmx.NextData() }); pn != nil {
+					got[0x100] = append(got[0x100], M{"hdr": M{"sid": -1, "opt": []interface{}{}}, "len": -1, "dg": "panic"})
+					break
+				}
+				if err == astits.ErrNoMorePackets {
+					break
+				}
+				if err != nil || d.PES == nil {
+					continue
+				}
+				got[int(d.PID)] = append(got[int(d.PID)], M{"hdr": projPESHeader(d.PES.Header), "len": len(d.PES.Data), "dg": digest(d.PES.Data)})
+			}
+			for _, pid := range []int{0x100, 0x101, 0x102} {
+				se, ge := sent[pid], got[pid]
+				if se == nil {
+					se = []M{}
+				}
+				if ge == nil {
+					ge = []M{}
+				}
+				rec.ev(M{"ev": "pstream", "class": "muxed-and-demuxed", "pid": pid, "sent": se, "got": ge})
 			}
 		}
 	default:
